@@ -17,7 +17,9 @@
 (* first matching row of every value (run-time arm selection).             *)
 (***************************************************************************)
 EXTENDS Integers, Sequences, TLC, FiniteSets, SequencesExt, Json
-CONSTANTS MaxRows, Depth, TypeNames
+CONSTANTS MaxRows, Depth, TypeNames,
+          Ordered      \* TRUE: rows are added in one fixed order of the patterns (every SUBSET of the patterns once, instead
+                       \* of every sequence): the only way to enumerate the matrices of a type with many constructors
 
 MAXW == 8      \* MAX_REPORTED_MISSING_PATTERNS
 
@@ -34,6 +36,10 @@ DataDecl(n) ==
     [] n = "Opt"  -> << [c |-> "N", ty |-> TUnit], [c |-> "S", ty |-> TNamed("f", TData("Bool"))] >>
     [] n = "Empty" -> << >>
     [] n = "One"  -> << [c |-> "X", ty |-> TData("Bool")] >>
+    \* more constructors than the number of missing patterns that is ever reported (MAXW + 1 = 9): a bound on the
+    \* REPORT must not become a bound on the constructors that are examined
+    [] n = "Wide" -> [i \in 1..11 |-> [c |-> (<<"D0", "D1", "D2", "D3", "D4", "D5", "D6", "D7", "D8", "D9", "D10">>)[i], ty |-> TUnit]]
+    [] n = "WideIn" -> << [c |-> "X", ty |-> TData("Wide")] >>
 
 TypeOf(nm) ==
   CASE nm = "Bool" -> TData("Bool")
@@ -41,6 +47,8 @@ TypeOf(nm) ==
     [] nm = "Opt" -> TData("Opt")
     [] nm = "Empty" -> TData("Empty")
     [] nm = "One" -> TData("One")
+    [] nm = "Wide" -> TData("Wide")
+    [] nm = "WideIn" -> TData("WideIn")
     [] nm = "Unit" -> TUnit
     [] nm = "Pair" -> TProd(TData("Bool"), TData("Bool"))
     [] nm = "Triple" -> TProd(TData("Bool"), TProd(TData("Bool"), TData("Bool")))
@@ -134,9 +142,13 @@ VARIABLES tyname, rows
 vars == <<tyname, rows>>
 Ty == TypeOf(tyname)
 
+\* a fixed order of the patterns of the type (only used when Ordered)
+PatSeq == SetToSeq(Pats(Ty, Depth))
+Rank(p) == CHOOSE i \in 1..Len(PatSeq) : PatSeq[i] = p
 Init == tyname \in TypeNames /\ rows = << >>
 Next == /\ Len(rows) < MaxRows
-        /\ \E p \in Pats(Ty, Depth) : rows' = Append(rows, p)
+        /\ \E p \in Pats(Ty, Depth) : /\ (IF Ordered /\ rows # << >> THEN Rank(p) > Rank(rows[Len(rows)]) ELSE TRUE)
+                                       /\ rows' = Append(rows, p)
         /\ UNCHANGED tyname
 Spec == Init /\ [][Next]_vars
 
